@@ -4,6 +4,7 @@ import (
 	"bytes"
 	"fmt"
 	"runtime"
+	"strings"
 	"time"
 
 	"github.com/bio-routing/bio-rd/protocols/bgp/packet"
@@ -69,7 +70,7 @@ func init() {
 		}
 		// an unmutated message of the grammar must be accepted by the real decoder when the options fit it, and the strict
 		// reference decoder must agree that it is well-formed (this keeps the grammar honest)
-		if mut == "none" {
+		if mut == "none" && !strings.Contains(st.Str("msg"), "lu") { // the reference decoder does not know labeled unicast (SAFI 4)
 			fits := map[string]int{"updV4as2": 0, "updV4ap": 1 | 4, "updV6ap": 2 | 4}
 			want, special := fits[st.Str("msg")]
 			ok := opts&7 == 4
